@@ -1,4 +1,4 @@
-import UvModel.Lemmas.IoWatchLemmas
+import UvModel.Lemmas.IoWatchK4
 /-! C14 property theorems (DESIGN.md §3 C14).  Model: UvModel.IoWatch.  `exec sc (init ..) prog` is the
 state after an arbitrary program (user ops and `uv_run` iterations with arbitrary kernel batches) under
 an arbitrary callback script `sc`; `SInv`/`Reach` are in Lemmas/IoWatchLemmas. -/
@@ -140,63 +140,139 @@ theorem ctl_del_removes (k : Kernel) (fd o : Nat) (m : Mask) (ow : Option Nat) (
   · simp only [hh]; intro e he hc
     apply hh; simp [Kernel.hasEnt]; exact ⟨e, he, hc.1, hc.2⟩
 
-/-- **kernel_sync_at_block**, kernel half, direct `epoll_ctl` mode, at full strength relative to the
-kernel-side invariant `KCore` (Lemmas/IoWatchLemmas): in the state in which `uv__io_poll` calls `epoll_pwait`
-(watcher queue applied), for every watched descriptor the kernel's interest map has the entry of
-(open file description at fd, fd) with exactly the requested mask, and every kernel entry sits on a
-descriptor that still refers to the same description and belongs to the one live — not closed —
-handle of that descriptor (a registered watcher, or a stopped-but-open one: interpretation (iii)). -/
-theorem kernel_sync_at_block_direct {s : St} (i : SInv s) (c : KCore s) (hr : s.ring = false) :
+/-- the full invariant (registry + kernel side, Lemmas/IoWatch{Lemmas,K2,K3,Ring,Ring2,K4}) holds in
+every state any program reaches, with the ctl ring on or off, whatever the kernel reports and whatever the
+callbacks do (under the user discipline the model's guards encode: one live handle per descriptor, a
+descriptor closed only when its handle is closed / stopped with uv_poll_stop / never started) -/
+theorem finv_exec (sc : Script) (ring : Bool) (internal nw : Nat) (prog : List Cmd) :
+    FInv (exec sc (init ring internal nw) prog) :=
+  exec_finv sc (finv_init ring internal nw) prog
+
+/-- **kernel_sync_at_block** for an invariant state: in the state in which `uv__io_poll` calls
+`epoll_pwait` (watcher queue applied, ctl ring flushed), for every watched descriptor the kernel's interest
+map has the entry of (open file description at fd, fd) with exactly the requested mask; every kernel
+entry sits on a descriptor that still refers to the same description and belongs to the one live — not
+closed — handle of that descriptor (a registered watcher, or a stopped-but-open one: interpretation
+(iii)); and applying the queue never reaches `abort()`. -/
+theorem kernel_sync_of_finv {s : St} (f : FInv s) :
     (∀ fd id, watcherAt (flushAll (applyQueue s)) fd = some id →
       ∃ o, (flushAll (applyQueue s)).k.ofdAt fd = some o ∧
         (flushAll (applyQueue s)).k.maskAt o fd = some (getW (flushAll (applyQueue s)) id).pevents) ∧
     (∀ o fd, (flushAll (applyQueue s)).k.maskAt o fd ≠ none →
       (flushAll (applyQueue s)).k.ofdAt fd = some o ∧
       ∃ id, id < (flushAll (applyQueue s)).ws.length ∧ (getW (flushAll (applyQueue s)) id).fd = fd ∧
-        (getW (flushAll (applyQueue s)) id).closing = false) := by
-  have cb := c.applyQueue hr
-  have tb := told_at_block i
-  have ib : SInv (flushAll (applyQueue s)) :=
-    i.reach (Reach.trans (reach_applyQueue s) (same_flushAll _).reach)
-  generalize flushAll (applyQueue s) = b at cb tb ib
-  constructor
+        (getW (flushAll (applyQueue s)) id).closing = false) ∧
+    (flushAll (applyQueue s)).aborted = s.aborted ∧ (flushAll (applyQueue s)).sq = [] := by
+  obtain ⟨fb, hab, _, _⟩ := applyQueue_any f
+  have tb := told_at_block f.si
+  generalize flushAll (applyQueue s) = b at fb tb hab
+  refine ⟨?_, ?_, hab, fb.kc.sq⟩
   · intro fd id h
-    obtain ⟨hl, hfd⟩ := ib.reg fd id h
+    obtain ⟨hl, hfd⟩ := fb.si.reg fd id h
     have hev := tb.2 fd id h
-    have hne : (getW b id).events ≠ Mask.none := by rw [hev]; exact ib.regReq fd id h
-    obtain ⟨o, a1, a2⟩ := cb.armed id hl hne
+    have hne : (getW b id).events ≠ Mask.none := by rw [hev]; exact fb.si.regReq fd id h
+    obtain ⟨o, a1, a2⟩ := fb.kc.armed id hl hne
     rw [hfd] at a1 a2
     exact ⟨o, a1, by rw [a2, hev]⟩
   · intro o fd h
-    obtain ⟨a, id, b1, b2, b3, _⟩ := cb.owned o fd h
+    obtain ⟨a, id, b1, b2, b3, _⟩ := fb.kc.owned o fd h
     exact ⟨a, id, b1, b2, b3⟩
 
-/-- `KCore` holds after loop init and is preserved by the primitives every operation is made of:
-`uv__io_start` under the one-watcher-per-fd guard, `uv__io_stop`, `uv__platform_invalidate_fd` on a
-descriptor with no armed watcher (which also leaves *no* entry for that descriptor number, whichever
-description it belongs to), marking the handle closed/clean afterwards, creating a handle, and the
-direct-mode queue application. -/
-theorem kcore_primitives :
-    (∀ ring internal nw, KCore (init ring internal nw)) ∧
-    (∀ (s : St) (id : Nat) (m : Mask), KCore s → id < s.ws.length → m ≠ Mask.none → (getW s id).closing = false →
-      (s.k.ofdAt (getW s id).fd).isSome = true →
-      (watcherAt s (getW s id).fd = none ∨ watcherAt s (getW s id).fd = some id) → KCore (ioStart s id m)) ∧
-    (∀ (s : St) (id : Nat) (m : Mask), KCore s → SInv s → KCore (ioStop s id m)) ∧
-    (∀ (s : St) (fd : Nat), KCore s →
-      (∀ id, id < s.ws.length → (getW s id).fd = fd → (getW s id).events = Mask.none) →
-      KCore (invalidate s fd) ∧ ∀ o, (invalidate s fd).k.maskAt o fd = none) ∧
-    (∀ (s : St), KCore s → s.ring = false → KCore (flushAll (applyQueue s))) :=
-  ⟨kcore_init, fun _ id m c hid hm hcl ho hw => c.start id m hid hm hcl ho hw,
-   fun _ id m c i => c.stop i id m, fun _ fd c h => c.invalidate fd h, fun _ c hr => c.applyQueue hr⟩
+/-- **kernel_sync_at_block**, unconditional: at the `epoll_pwait` of the next loop iteration after *any*
+program (any ops, any callback script, any kernel batches, ring on or off): the kernel's interest map
+agrees with the watched set with exact masks, and no entry belongs to a closed handle or to a descriptor
+number that meanwhile refers to another open file. -/
+theorem kernel_sync_at_block (sc : Script) (ring : Bool) (internal nw : Nat) (prog : List Cmd) :
+    let b := flushAll (applyQueue (exec sc (init ring internal nw) prog))
+    (∀ fd id, watcherAt b fd = some id →
+      ∃ o, b.k.ofdAt fd = some o ∧ b.k.maskAt o fd = some (getW b id).pevents) ∧
+    (∀ o fd, b.k.maskAt o fd ≠ none →
+      b.k.ofdAt fd = some o ∧ ∃ id, id < b.ws.length ∧ (getW b id).fd = fd ∧ (getW b id).closing = false) := by
+  have := kernel_sync_of_finv (finv_exec sc ring internal nw prog)
+  exact ⟨this.1, this.2.1⟩
 
-/-- what is still missing for the unconditional statement: `KCore` carried through the composite
-operations (`uv_poll_init`'s probe, `closefd`/`openfd`/`dup` under the close discipline, callbacks) — the
-primitives they consist of are covered by `kcore_primitives` — and through the io_uring ctl ring
-(`prep`/`flushOnce`), plus the ring ≡ direct equality of the interest map.  The correspondence check
-compares the model's interest list with the real kernel's at every `epoll_pwait`, ring on and off. -/
-def kernel_sync_full_statement : Prop :=
-  ∀ (sc : Script) (ring : Bool) (internal nw : Nat) (prog : List Cmd),
-    KCore (exec sc (init ring internal nw) prog)
+set_option maxRecDepth 100000 in
+/-- non-vacuity: a watched descriptor and its kernel entry after a program run through the ctl ring -/
+example :
+    let b := flushAll (applyQueue (exec (fun _ _ => []) (init true 2 14)
+      [.op (.openfd 100 0), .op (.pinit 100), .op (.pstart 0 ⟨true, false, true, false⟩)]))
+    watcherAt b 100 = some 0 ∧ b.k.maskAt 0 100 = some ⟨true, false, false, false, false, true⟩ ∧ b.sq = [] := by
+  decide
+
+/-- the same holds at every later blocking `epoll_pwait` inside the iteration: those only follow batches
+without callbacks (`told_at_reblock`), and every intermediate state of the poll loop satisfies `FInv`
+(`pollLoop_finv`); and user operations / callbacks never make libuv `abort()` -/
+theorem no_abort_in_callbacks (sc : Script) (s : St) (ops : List Op) (id : Nat) (ev : Mask) :
+    (execOps s ops).aborted = s.aborted ∧ (deliver sc s id ev).aborted = s.aborted :=
+  ⟨execOps_ab s ops, deliver_ab sc s id ev⟩
+
+/-- **ring ≡ direct**: from any invariant state, applying the watcher queue through the io_uring ctl ring
+(256-slot submission batching, EEXIST retries at flush time) and applying it with direct `epoll_ctl`
+calls leave the *same* kernel interest map (and descriptor table) at `epoll_pwait`. -/
+theorem ring_eq_direct_of_finv {s : St} (f : FInv s) :
+    (∀ g, (flushAll (applyQueue { s with ring := true })).k.ofdAt g =
+          (flushAll (applyQueue { s with ring := false })).k.ofdAt g) ∧
+    (∀ o g, (flushAll (applyQueue { s with ring := true })).k.maskAt o g =
+            (flushAll (applyQueue { s with ring := false })).k.maskAt o g) := by
+  have fr : FInv { s with ring := true } := f.same rfl rfl rfl rfl rfl rfl rfl
+  have fd : FInv { s with ring := false } := f.same rfl rfl rfl rfl rfl rfl rfl
+  obtain ⟨_, _, ka, _⟩ := applyQueue_any fr
+  obtain ⟨_, _, kb, _⟩ := applyQueue_any fd
+  have sa := kernel_sync_of_finv fr
+  have sb := kernel_sync_of_finv fd
+  have ra := applied_applyQueue { s with ring := true }
+  have rb := applied_applyQueue { s with ring := false }
+  have wa := (same_flushAll (applyQueue { s with ring := true })).2.1
+  have wb := (same_flushAll (applyQueue { s with ring := false })).2.1
+  have ga := (same_flushAll (applyQueue { s with ring := true })).1
+  have gb := (same_flushAll (applyQueue { s with ring := false })).1
+  generalize flushAll (applyQueue { s with ring := true }) = a at *
+  generalize flushAll (applyQueue { s with ring := false }) = b at *
+  have hka : KFrame s.k a.k (s.wq.map fun x => (getW s x).fd) := ka
+  have hkb : KFrame s.k b.k (s.wq.map fun x => (getW s x).fd) := kb
+  refine ⟨fun g => by rw [hka.1, hkb.1], fun o g => ?_⟩
+  by_cases hg : g ∈ s.wq.map fun x => (getW s x).fd
+  · obtain ⟨id, hid, hfd⟩ := List.mem_map.mp hg
+    obtain ⟨hl, hp⟩ := f.kc.queued id hid
+    have hw := (f.kc.live id hl hp).2.2.2
+    rw [hfd] at hw
+    have hwa : watcherAt a g = some id := by
+      simp only [watcherAt, wa, ra.watchers]; exact hw
+    have hwb : watcherAt b g = some id := by
+      simp only [watcherAt, wb, rb.watchers]; exact hw
+    obtain ⟨oa, a1, a2⟩ := sa.1 g id hwa
+    obtain ⟨ob, b1, b2⟩ := sb.1 g id hwb
+    have pa : (getW a id).pevents = (getW s id).pevents := by
+      have : getW a id = getW (applyQueue { s with ring := true }) id := by simp [getW, ga]
+      rw [this, ra.pev]; rfl
+    have pb : (getW b id).pevents = (getW s id).pevents := by
+      have : getW b id = getW (applyQueue { s with ring := false }) id := by simp [getW, gb]
+      rw [this, rb.pev]; rfl
+    have hoo : oa = ob := by
+      rw [hka.1] at a1; rw [hkb.1] at b1; rw [a1] at b1; simpa using b1
+    subst hoo
+    by_cases ho : o = oa
+    · subst ho; rw [a2, b2, pa, pb]
+    · have na : a.k.maskAt o g = none := by
+        cases hm : a.k.maskAt o g with
+        | none => rfl
+        | some x =>
+          have := (sa.2.1 o g (by rw [hm]; simp)).1
+          rw [a1] at this; simp at this; exact absurd this.symm ho
+      have nb : b.k.maskAt o g = none := by
+        cases hm : b.k.maskAt o g with
+        | none => rfl
+        | some x =>
+          have := (sb.2.1 o g (by rw [hm]; simp)).1
+          rw [b1] at this; simp at this; exact absurd this.symm ho
+      rw [na, nb]
+  · rw [hka.2 o g hg, hkb.2 o g hg]
+
+/-- ring ≡ direct after any program -/
+theorem ring_eq_direct (sc : Script) (ring : Bool) (internal nw : Nat) (prog : List Cmd) (o g : Nat) :
+    (flushAll (applyQueue { exec sc (init ring internal nw) prog with ring := true })).k.maskAt o g =
+    (flushAll (applyQueue { exec sc (init ring internal nw) prog with ring := false })).k.maskAt o g :=
+  (ring_eq_direct_of_finv (finv_exec sc ring internal nw prog)).2 o g
 
 /-- **negative result** (model agrees with the code, replayed on the real library and kernel by
 `corpus/C14-findings/second_handle.txt`): without the "one handle per descriptor" discipline the
